@@ -112,7 +112,7 @@ theorem betweenLoop_append (a b : Int) (inc : Bool) (ys zs : List Int) (started 
       rw [ih true h', ih false h']
 
 theorem xafterLoop_append (t c : Int) (inc : Bool) (ys zs : List Int)
-    (h : ((ys.filter (cmpAfter t inc)).length : Int) > c) :
+    (h : (ys.filter (cmpAfter t inc)).length > c.toNat) :
     xafterLoop t (some c) inc (ys ++ zs) 0 = xafterLoop t (some c) inc ys 0 := by
   rw [xafterLoop_some _ _ _ _ 0 (by omega), xafterLoop_some _ _ _ _ 0 (by omega), List.filter_append]
   rw [List.take_append_of_le_length (by omega)]
